@@ -10,7 +10,7 @@ import common
 import sched
 import scratch as sc
 
-NAMES = ["t1", "t10", "t\u00fc", "t20-" + "\u00e9\u20ac" * 10, "t3"]  # prefix siblings, a short non-ASCII name, a 54-byte name made of 2- and 3-byte characters
+NAMES = ["t1", "t10", "t20-" + "\u00e9\u20ac" * 10, "t\u00fc", "t3xx-" + "\u00e9\u20ac" * 10 + "y"]  # prefix siblings, a short non-ASCII name, two long names of 2- and 3-byte characters whose ASCII prefix and suffix lengths differ (a fixed byte offset from either end falls inside a character of one of them)
 
 # edge (i, j): target i `uses` target j, i.e. i depends on j
 SHAPES = {
@@ -182,6 +182,11 @@ def c16_scenarios(tier):
     for n in ([2, 5, 13] if tier == "quick" else [2, 3, 5, 13, 34]):
         for lis in (["--stdout", "--stderr"], ["--stdout", "-t", "g00", "g01"], ["--stderr", "-t", "g00"]):
             out.append(("c16", {"n": n, "pos": "middle", "ncmd": 1, "listener": lis}, {}))
+    # with a history: an earlier run of the same command in the same repository in which one member
+    # of the group failed (first / middle / last member), or in which everything succeeded
+    for n in ([2, 5, 24] if tier == "quick" else [2, 3, 5, 13, 24, 48]):
+        for prior in ("ok", 0, n // 2, n - 1):
+            out.append(("c16", {"n": n, "pos": "middle", "ncmd": 1, "prior": prior}, {}))
     return out
 
 
@@ -242,6 +247,13 @@ def c16_task(desc):
         viol = []
         c = sched.ctlmod.Controller(s)
         try:
+            if "prior" in desc:
+                # an earlier, uncontrolled run whose records are on disk when the judged run starts
+                if desc["prior"] != "ok":
+                    r.set_script(group[desc["prior"]], cmds[0], ["err " + b"prior failure\n".hex(), "exit 1"])
+                pr = r.mr("run", *sn.args, env=r.trace_env())
+                if pr.json() is None or (pr.code == 0) != (desc["prior"] == "ok"):
+                    raise common.EngineError("c16: the prior run did not end as scripted: exit %s %s" % (pr.code, pr.err[:200]))
             if desc.get("listener"):
                 # a `log tail` listener is attached for the whole run
                 import p_listen
